@@ -11,3 +11,14 @@ package model
 //@ pure
 //@ reads fields(Server), fields(string)
 //@ ensures result == ite(sv.Name == nil, sv.Internal, *sv.Name)
+
+// Load-ratio bookkeeping of the balancer: only the load-ratio records change;
+// termination without panic is assumed.
+//
+//@ func Ratio.MoveShardToNode
+//@ trusted
+//@ modifies fields(Ratio), fields(NodeLoadRatio)
+
+//@ func Ratio.ReCalculateRatios
+//@ trusted
+//@ modifies fields(Ratio), fields(NodeLoadRatio)
